@@ -115,6 +115,26 @@ CHECKS.update({
             'Trusted: expected() in pbt/c20_xsd.py and the row synthesiser; predefined unsupported global types are ignored.', 'DESIGN.md 3 C20'),
 })
 
+CHECKS.update({
+    'C05': ('Hypothesis name-resolved bodies in every action home of a synthesised model; prebuild -> gen_text_action -> parse round trip (strict tree equality) + second-generation fixed point',
+            'Generated bodies (all listed statement forms incl. invocations with parameters, array elements, enumerators, '
+            'constants) placed in function / bridge / operation / derived-attribute homes are prebuilt, regenerated as text and '
+            'must parse to the same tree as the original; the generated text prebuilt in a fresh model must regenerate itself.',
+            'Trusted: strict parsed-vs-parsed tree comparison (keyword fields folded, implicit/class/bridge invocation node '
+            'classes merged), the row synthesiser.', 'DESIGN.md 3 C05'),
+    'C06': ('Hypothesis fixtures of C05; validity predicates computed by the harness from printer spans, a scoping/typing walk over the generated AST and its own multiplicity/uniqueness counter',
+            'After prebuild the harness counts multiplicity and uniqueness violations itself over the ooaofooa schema, checks '
+            'subtype counts, the persisted R661 / R816 / R604 references against source order, statement and value positions '
+            'against printer spans, variable-to-block relations against a scoping walk, and R820/R848 types against a typing walk.',
+            'Trusted: printer spans, Scopes/Expect walk in pbt/c06_prebuild_wf.py, harness reading of bridgepoint/schema.py.', 'DESIGN.md 3 C06'),
+})
+CHECKS['C08'] = ('Hypothesis metamorphic relation: re-cased keywords vs lower-case body (parse trees; interpreter result + final population vs reference; prebuilt instance multisets + regenerated text)',
+                 'Bodies over every production are parsed in lower case and under a drawn per-occurrence case map (optional words drawn '
+                 'too) and the trees compared; typed programs are interpreted under a case map and compared with the reference '
+                 'evaluator; fixtures are prebuilt from lower-case and re-cased sources and the Body/Value/Event instances compared '
+                 'attribute by attribute without ids, positions and labels.',
+                 'Trusted: as C04/C05/C07.', 'DESIGN.md 3 C08')
+
 NOT_APPLICABLE = {
 }
 
